@@ -449,14 +449,14 @@ class Folder:
         if k in ("Borrow", "Coerce"):
             return self.fold(e["arg"])
         if k == "Cast":
-            v = self.fold(e["arg"])
+            v = _loaded(self.fold(e["arg"]))
             if isinstance(v, bool):
                 v = int(v)
             if not isinstance(v, int):
                 raise Undecidable("cast of non-int")
             return wrap(v, e["ty"])
         if k == "Unary":
-            v = self.fold(e["arg"])
+            v = _loaded(self.fold(e["arg"]))
             if e["op"] == "Not":
                 if isinstance(v, Sym):
                     return s_not(v)
@@ -1550,6 +1550,23 @@ class Folder:
                     return opt(None, False)
                 return opt((v[0], list(v[1:])) if last == "split_first" else (v[-1], list(v[:-1])))
             return NotImplemented
+        if last == "copy_within" and len(a) == 3:
+            v, rg, dst = _loaded(self.fold(a[0])), self.fold(a[1]), _loaded(self.fold(a[2]))
+            if isinstance(v, list) and isinstance(rg, dict) and str(rg.get("__adt__", "")).startswith("core::ops::Range") and isinstance(dst, int):
+                lo = rg.get("start", 0) if "start" in rg else 0
+                hi = rg.get("end", len(v)) if "end" in rg else len(v)
+                if str(rg["__adt__"]).endswith("Inclusive"):
+                    hi += 1
+                if not (isinstance(lo, int) and isinstance(hi, int) and 0 <= lo <= hi <= len(v) and 0 <= dst and dst + (hi - lo) <= len(v)):
+                    raise Trap("copy_within out of bounds at " + span_str(e["span"]))
+                vals = [_loaded(x) for x in v[lo:hi]]
+                for i, x in enumerate(vals):
+                    if isinstance(v[dst + i], Ref):
+                        v[dst + i].store(x)
+                    else:
+                        v[dst + i] = x
+                return ()
+            return NotImplemented
         if last in ("copy_from_slice", "clone_from_slice") and len(a) == 2:
             dst, src = _loaded(self.fold(a[0])), _loaded(self.fold(a[1]))
             if isinstance(dst, list) and isinstance(src, list):
@@ -1581,6 +1598,10 @@ class Folder:
                     "contains", "first", "nth", "enumerate", "is_empty", "get", "find_map", "step_by", "zip", "chain", "collect", "sum", "cycle", "fold", "max", "min"):
             v = self.fold(a[0])
             seq = self._iterable(v)
+            if seq is None and last == "zip" and len(a) == 2 and isinstance(v, dict) and v.get("__adt__") == "core::ops::RangeFrom" and isinstance(v.get("start"), int):
+                other = self._iterable(_loaded(self.fold(a[1])))
+                if other is not None:
+                    return [(v["start"] + i, x) for i, x in enumerate(other)]
             if seq is None:
                 return NotImplemented
             if last in ("len", "count") and len(a) == 1:
@@ -1633,6 +1654,8 @@ class Folder:
                 other = self._iterable(arg)
                 if other is not None:
                     return list(seq) + list(other)
+            if last == "zip" and isinstance(arg, dict) and arg.get("__adt__") == "core::ops::RangeFrom" and isinstance(arg.get("start"), int):
+                return [(x, arg["start"] + i) for i, x in enumerate(seq)]
             if last == "zip" and isinstance(arg, Cycle) and arg.items:
                 return [(x, arg.items[i % len(arg.items)]) for i, x in enumerate(seq)]
             if last == "zip":
@@ -1915,6 +1938,8 @@ class Folder:
 
     def _bin(self, op, a, b, e):
         a, b = _loaded(a), _loaded(b)
+        if (isinstance(a, Sym) or isinstance(b, Sym)) and op in ("BitOr", "BitAnd") and all(isinstance(x, (Sym, bool)) for x in (a, b)):
+            return s_or(a, b) if op == "BitOr" else s_and(a, b)
         if op not in ("Eq", "Ne") and not (isinstance(a, (int, bool)) and isinstance(b, (int, bool))):
             raise Undecidable("arithmetic on an opaque value")
         if op in ("Eq", "Ne") and (isinstance(a, Token) or isinstance(b, Token)):
